@@ -31,7 +31,7 @@ def parseEntryR (s : String) : Option (RPath × Obj) :=
     else parseEntry s
   | _ => none
 
-def kindStr : Kind → String
+def lfsKindStr : Kind → String
   | .dir => "dir" | .reg => "reg" | .symlink => "symlink" | .device => "device" | .other => "other"
 
 def frecStr (f : FileRec) : String :=
@@ -39,7 +39,7 @@ def frecStr (f : FileRec) : String :=
     | .reg | .symlink => toString f.size
     | _ => "-"
   let xs := String.intercalate "," (f.xattrs.map fun (k, v) => toHex k ++ "=" ++ toHex v)
-  s!"{toHex f.path}|{toHex f.base}|{toHex f.parent}|{kindStr f.kind}|{f.mode}|{f.uid}|{f.gid}|{f.mtime}|{sz}|{toHex f.data}|{toHex f.target}|{f.major}|{f.minor}|{xs}"
+  s!"{toHex f.path}|{toHex f.base}|{toHex f.parent}|{lfsKindStr f.kind}|{f.mode}|{f.uid}|{f.gid}|{f.mtime}|{sz}|{toHex f.data}|{toHex f.target}|{f.major}|{f.minor}|{xs}"
 
 def zeroEnv : Env := ⟨fun _ => (0, 0), fun _ => 0, fun _ => 0⟩
 
